@@ -142,6 +142,8 @@ class SymSet:
 def S_(x):
     if isinstance(x, SymSet):
         return x.t
+    if getattr(x, "_sym", None) is not None:
+        return x._sym.t
     if isinstance(x, (set, frozenset)):
         t = z3.EmptySet(PATH)
         for k in x:
